@@ -77,6 +77,10 @@ type scenario struct {
 	BatchQ int        `json:"batchq"`
 	Post   []postSpec `json:"post"`
 	ValCtx bool       `json:"valctx"` // validators return when the instance context is cancelled
+	// Backlog: more validations than sendMsg has room for (32) are in progress at the cancellation and
+	// finish after it: "local" = 40 Topic.Publish callers inside a gated validator, "remote" = 40 received
+	// messages inside a gated asynchronous validator plus both validation workers inside a gated inline one.
+	Backlog string `json:"backlog"`
 }
 
 // ---------------------------------------------------------------------------
@@ -191,6 +195,7 @@ type run struct {
 	relays   map[int]pubsub.RelayCancelFunc
 	batches  map[int]*pubsub.MessageBatch
 	valGates map[string]chan struct{}
+	valCount map[string]int
 	inVal    atomic.Int32
 	park     *parkPoint
 	partGate chan struct{}
@@ -242,6 +247,14 @@ func (r *run) blockingValidator(name string) pubsub.ValidatorEx {
 	return func(ctx context.Context, p peer.ID, m *pubsub.Message) pubsub.ValidationResult {
 		r.inVal.Add(1)
 		defer r.inVal.Add(-1)
+		r.mu.Lock()
+		r.valCount[name]++
+		r.mu.Unlock()
+		defer func() {
+			r.mu.Lock()
+			r.valCount[name]--
+			r.mu.Unlock()
+		}()
 		if r.s.ValCtx {
 			select {
 			case <-g:
@@ -252,6 +265,12 @@ func (r *run) blockingValidator(name string) pubsub.ValidatorEx {
 		}
 		return pubsub.ValidationAccept
 	}
+}
+
+func (r *run) inValidator(name string) int {
+	r.mu.Lock()
+	defer r.mu.Unlock()
+	return r.valCount[name]
 }
 
 func (r *run) topicName(k int) string { return "t" + strconv.Itoa(k) }
@@ -711,6 +730,32 @@ func (r *run) play() {
 			r.t.Fatal(err)
 		}
 	}
+	const backlogN = 40
+	var backlog []*call
+	switch s.Backlog {
+	case "local":
+		r.join(8000)
+		if err := r.ps.RegisterTopicValidator(r.topicName(8000), r.blockingValidator("bl")); err != nil {
+			r.t.Fatal(err)
+		}
+		for i := 0; i < backlogN; i++ {
+			c := &call{id: len(r.calls) + 1, api: "Topic.Publish", pat: "Publish", phase: "validator", k: 8000, done: make(chan struct{})}
+			r.calls = append(r.calls, c)
+			backlog = append(backlog, c)
+		}
+	case "remote":
+		if err := r.ps.RegisterTopicValidator("br", r.blockingValidator("bl")); err != nil {
+			r.t.Fatal(err)
+		}
+		if err := r.ps.RegisterTopicValidator("bwk", r.blockingValidator("bw"), pubsub.WithValidatorInline(true)); err != nil {
+			r.t.Fatal(err)
+		}
+		for _, tn := range []string{"br", "bwk"} {
+			if _, err := r.ps.Subscribe(tn); err != nil {
+				r.t.Fatal(err)
+			}
+		}
+	}
 	r.settle()
 	hnet.AdvanceTo(1500)
 
@@ -750,6 +795,24 @@ func (r *run) play() {
 		r.settle()
 		if r.inVal.Load() == 0 {
 			r.note("worker did not reach the validator")
+		}
+	}
+	// ---- the backlog: more validations in progress than sendMsg has room for
+	for _, c := range backlog {
+		r.start(c)
+	}
+	if s.Backlog == "remote" {
+		for b := 0; b < 4; b++ {
+			var msgs []*pb.Message
+			for i := 0; i < backlogN/4; i++ {
+				msgs = append(msgs, r.p1.NewMessage(fmt.Sprintf("r%d", b*10+i), "br", 16, true))
+			}
+			r.p1.Send(hnet.MsgRPC(msgs...))
+			r.settle()
+		}
+		for i := 0; i < 2; i++ { // one per validation worker
+			r.p1.Send(hnet.MsgRPC(r.p1.NewMessage(fmt.Sprintf("w%d", i), "bwk", 16, true)))
+			r.settle()
 		}
 	}
 	// ---- publishes that sit in a validator at the cancellation
@@ -857,6 +920,7 @@ func (r *run) play() {
 		}()
 	}
 	r.settle()
+	blAsync, blWorkers := r.inValidator("bl"), r.inValidator("bw")
 	r.cancelAt = hnet.NowMs()
 	r.cancel()
 	r.stopped = true
@@ -876,6 +940,15 @@ func (r *run) play() {
 			r.start(p.c)
 			r.settle()
 		}
+	}
+	// ---- the backlog finishes validating after the cancellation (the loop parked, or gone): the first 32
+	// messages fit sendMsg, every further sendMsgBlocking needs its ctx.Done arm
+	if s.Backlog != "" {
+		r.settle()
+		r.openGate("bl")
+		r.settle()
+		r.openGate("bw")
+		r.settle()
 	}
 	// ---- release the loop and the validators
 	if r.park != nil {
@@ -946,7 +1019,8 @@ func (r *run) play() {
 	r.net.Close()
 	hnet.Settle(2 * time.Second)
 	left := libraryGoroutines(staleGoroutines)
-	r.out.emit(vh.M{"e": "exit", "scn": s.ID, "left": strings.Join(left, ","), "n": len(left), "notes": strings.Join(r.notes, "; ")})
+	r.out.emit(vh.M{"e": "exit", "scn": s.ID, "left": strings.Join(left, ","), "n": len(left), "notes": strings.Join(r.notes, "; "),
+		"backlog": s.Backlog, "bl_n": blAsync, "bl_workers": blWorkers, "bl_parked": s.Backlog != "" && s.Parker != 0})
 }
 
 // goroutines left behind by earlier scenarios (they stay blocked in their dead bubble)
@@ -954,7 +1028,7 @@ var staleGoroutines = map[int]bool{}
 
 func runScenario(t *testing.T, out *outFile, s scenario) {
 	out.emit(vh.M{"e": "reset", "scn": s.ID, "shape": s.Shape, "router": s.Router, "disc": s.Disc, "tcbl": s.Tcbl,
-		"parker": s.Parker, "tick": s.Tick, "wval": s.Wval, "valctx": s.ValCtx})
+		"parker": s.Parker, "tick": s.Tick, "wval": s.Wval, "valctx": s.ValCtx, "backlog": s.Backlog})
 	func() {
 		// a call or a library goroutine that never ends keeps its bubble from draining: synctest
 		// reports that as a panic on this goroutine AFTER the scenario's lines were written
@@ -968,7 +1042,7 @@ func runScenario(t *testing.T, out *outFile, s scenario) {
 		synctest.Test(t, func(t *testing.T) {
 			r := &run{t: t, s: s, out: out, topics: map[int]*pubsub.Topic{}, subs: map[int]*pubsub.Subscription{},
 				relays: map[int]pubsub.RelayCancelFunc{}, batches: map[int]*pubsub.MessageBatch{},
-				valGates: map[string]chan struct{}{}, nAfter: map[string]int{}}
+				valGates: map[string]chan struct{}{}, valCount: map[string]int{}, nAfter: map[string]int{}}
 			r.play()
 		})
 	}()
